@@ -28,9 +28,20 @@ SPEC = {
         #    MessagesCreated) is run at EVERY database-call boundary of the command (recorded first); the command's own
         #    response is judged for internal consistency (causes select-uidnext-not-above-view,
         #    status-uidnext-not-above-counted, ...).
+        #  * multi-party patterns (o_uids_pattern.go, flag -patterns N histories per kind; the same builders are called by the
+        #    free generator): FAILED-THEN-REUSE - a session's CREATE / RENAME / APPEND / COPY / MOVE fails (existing, malformed
+        #    or reserved name, connector refuses CreateMailbox, rolled-back transaction, mailbox-count / message-count limit
+        #    via step X LIMITS, missing mailbox, bad literal), another party (second session or the connector) creates, fills
+        #    and deletes the very name (adds to / expunges from the very mailbox), then the first session's command on it
+        #    succeeds (CREATE X, CREATE X/kid, RENAME INBOX X, RENAME e X/kid): per-name UIDVALIDITY must still strictly
+        #    increase; STALE-VIEW COPY/MOVE - a session that has not been told about other parties' expunges (UID EXPUNGE,
+        #    MOVE away, connector MessageRemoved; only FETCH/SEARCH/STORE/COPY since) issues COPY / UID COPY / MOVE / UID MOVE
+        #    with sets holding the vanished messages at the start / middle / end, ranges, unordered lists, repetitions:
+        #    COPYUID set lengths equal and every pair holds the same marker (causes copyuid-length-mismatch,
+        #    copyuid-pairing, announced-uid-not-found). Directed: copyuid-stale-copy next to copyuid-stale-move.
         {"name": "c04uids",
-         "quick_args": ["-n", "60", "-par", "16", "-directed", "uidv-restart,copyuid-order,copyuid-stale-move,rename-onto-used,rollback-told"],
-         "thorough_args": ["-n", "2000", "-par", "24", "-directed", "uidv-restart,copyuid-order,copyuid-stale-move,rename-onto-used,rollback-told"],
+         "quick_args": ["-n", "60", "-par", "16", "-directed", "uidv-restart,copyuid-order,copyuid-stale-move,copyuid-stale-copy,rename-onto-used,rollback-told"],
+         "thorough_args": ["-n", "2000", "-par", "24", "-patterns", "300", "-directed", "uidv-restart,copyuid-order,copyuid-stale-move,copyuid-stale-copy,rename-onto-used,rollback-told"],
          "timeout": 2400},
     ],
     "trusted_base": [
@@ -46,6 +57,10 @@ SPEC = {
         "schedule control (o_uids_race.go): the wrapper c04Client around the real db.Client (gluon.WithDBClient) counts "
         "top-level Read/Write calls and parks the server goroutine between two of them while the second party runs; it "
         "relies on the SQLite client taking its lock per call (no lock is held at a boundary)",
+        "pattern histories (o_uids_pattern.go): the harness decides from its own bookkeeping which messages a session still "
+        "sees (its last VIEW = NOOP + listing, nothing but FETCH/SEARCH/STORE/COPY since) and relies on gluon delivering "
+        "EXPUNGE only with NOOP/CHECK/STATUS/APPEND/MOVE/EXPUNGE/CLOSE/IDLE; were that to change the stale-view rounds would "
+        "silently become ordinary ones (stat obs.copyuid stays, the judge clauses are the same)",
         "facts translator harness/facts_c04mig.go (go/ast): migrationList of internal/db_impl/sqlite3/migrations.go and, per "
         "migration package, whether its source mentions the per-mailbox message tables / DROP TABLE, RENAME TO, "
         "sqlite_sequence / Generate()",
@@ -55,6 +70,7 @@ SPEC = {
         "uidv_mono_restart_partial / recreate_greater need the named hypothesis ClockAhead (clockAtRestart > lastIssued): lastUID is not persisted; theorem uidv_restart_witness and the oracle's `nontrivial-reissue-after-restart` cases show the real generator re-issuing a smaller value after burst+restart",
         "concurrent Generate calls are modelled by their linearisation at the successful CAS (argument in Model/UidValidity.lean, not formalised); the oracle runs concurrent calls and requires a sequential explanation of the sorted results",
         "a wall clock that steps backwards is covered by the theorems (clock readings are arbitrary) but cannot be produced by the real-time oracle",
+        "failed_commands_drop_values speaks about Generate calls tagged with what became of their value (used by the command that made the call, or dropped); that the server uses a value only in the command that generated it is checked on the real server by the failed-then-reuse pattern histories (sampled), and no COPYUID at all is accepted as an answer (since fix afeb569 the server omits the item when the sets cannot be paired)",
         "uid_fresh / uidnext_gt_all / uidnext_mono speak about the AUTOINCREMENT model; that every announced UID stems from a committed transaction (announce-after-commit) and the APPENDUID/COPYUID values are checked at wire level by the oracle c04uids, which also checks the model's predictions on the real server (n additions get exactly the UIDs UidSeq.applyOps hands out, UIDNEXT = UidSeq.uidNext, a transaction rolled back after it ran leaves no trace) - sampled histories, not proof",
         "a restart in the generated histories reopens the database with the code that wrote it; the restart that is an "
         "UPGRADE is covered by the committed fixtures only (schema 3 -> current; three recipes: tops expunged / emptied / "
@@ -67,7 +83,8 @@ SPEC = {
         "interleavings inside a database call do not exist (per-call lock) and two second parties at two boundaries of the "
         "same command are not tried; a raced response is judged for internal consistency and against lower bounds only "
         "(its UIDNEXT may be larger than the view needs)",
-        "c04uids: generated histories wait for the generator clock to pass every UIDVALIDITY seen so far before the first creation after a restart (step X CLOCKWAIT = the named hypothesis ClockAhead), let a session catch up (NOOP) before it copies or moves, and never rename onto a name that carried a greater UIDVALIDITY, so that they stay quiet about the directed findings and are judged to their end; restarts are clean closes (optionally with client connections cut) and reopen on the same directories; process kills are C07's oracle",
+        "pattern histories: limits are mailbox count 5-6 and 3-5 messages per mailbox (a third of the failed-then-reuse histories); a UIDValidityBumped cannot be the other party of a surviving session (it invalidates every session); the connector is not the other party at a limit",
+        "c04uids: generated histories wait for the generator clock to pass every UIDVALIDITY seen so far before the first creation after a restart (step X CLOCKWAIT = the named hypothesis ClockAhead), let a session catch up (NOOP) before it copies or moves in half of the histories (in the other half and in the stale-view pattern histories it copies and moves out of a view that is behind), and never rename onto a name that carried a greater UIDVALIDITY, so that they stay quiet about the directed findings and are judged to their end; restarts are clean closes (optionally with client connections cut) and reopen on the same directories; process kills are C07's oracle",
     ],
-    "explanation": "Lean theorems: Generate results strictly increase within a process for every clock sequence (incl. backwards clocks and the uint32 ceiling, where it fails instead of wrapping); across restarts only under ClockAhead, with a decide-checked witness that the hypothesis is needed; AUTOINCREMENT UIDs are fresh and UIDNEXT monotone over all histories of committed/rolled-back transactions. The real EpochUIDValidityGenerator is run in real time (bursts, restarts, second boundaries, concurrent calls, epochs at 0 / 2^31 / 2^32 / in the future) and judged against the model by the Lean judge. At wire level whole-server histories (APPEND, COPY/MOVE, expunge of the highest UID or of everything followed by additions, failing and rolled-back commands, connector-driven additions, DELETE+CREATE, RENAME, UIDVALIDITY bump, restarts) are logged and a Lean judge checks that (name, uidvalidity, uid) -> message is a function, UIDs are fresh, UIDNEXT is above every UID assigned and monotone, APPENDUID/COPYUID UIDs hold the announced messages, and UIDVALIDITY per name strictly increases. Upgrade fixtures written by an earlier HEAD are opened by the tree under test and their recorded history is continued; SELECT/EXAMINE/STATUS/APPEND/COPY/MOVE are raced with a second party's addition at every database-call boundary and the response is checked against the view it opened (UIDNEXT above every UID of the EXISTS messages shown). The list of schema migrations is a regenerated fact with two obligations (reviewed list; no rebuild of the UID tables under the same UIDVALIDITY), and the model states what a table rebuild by copy does to UIDNEXT (rebuild_copy_*).",
+    "explanation": "Lean theorems: Generate results strictly increase within a process for every clock sequence (incl. backwards clocks and the uint32 ceiling, where it fails instead of wrapping), also per mailbox name when commands fail after their Generate call and drop the value (failed_commands_drop_values); across restarts only under ClockAhead, with a decide-checked witness that the hypothesis is needed; AUTOINCREMENT UIDs are fresh and UIDNEXT monotone over all histories of committed/rolled-back transactions. The real EpochUIDValidityGenerator is run in real time (bursts, restarts, second boundaries, concurrent calls, epochs at 0 / 2^31 / 2^32 / in the future) and judged against the model by the Lean judge. At wire level whole-server histories (APPEND, COPY/MOVE, expunge of the highest UID or of everything followed by additions, failing and rolled-back commands, connector-driven additions, a failed UIDVALIDITY- or UID-assigning command followed by another party's create/fill/delete of the same name and the first session's successful command on it, COPY/MOVE out of a view that still shows messages expunged elsewhere, DELETE+CREATE, RENAME, UIDVALIDITY bump, restarts) are logged and a Lean judge checks that (name, uidvalidity, uid) -> message is a function, UIDs are fresh, UIDNEXT is above every UID assigned and monotone, APPENDUID/COPYUID UIDs hold the announced messages, and UIDVALIDITY per name strictly increases. Upgrade fixtures written by an earlier HEAD are opened by the tree under test and their recorded history is continued; SELECT/EXAMINE/STATUS/APPEND/COPY/MOVE are raced with a second party's addition at every database-call boundary and the response is checked against the view it opened (UIDNEXT above every UID of the EXISTS messages shown). The list of schema migrations is a regenerated fact with two obligations (reviewed list; no rebuild of the UID tables under the same UIDVALIDITY), and the model states what a table rebuild by copy does to UIDNEXT (rebuild_copy_*).",
 }
